@@ -58,6 +58,35 @@ def main():
                 y2 = model(x)
                 y2 = y2.dequantize() if isinstance(y2, Q.QTensor) else y2
                 r["equals_bias"] = r["equals_bias"] and bool(torch.equal(y2, yd))
+            elif c["kind"] == "dead_chain":
+                # a dead producer (all-zero weights, no bias: a pruned / zero-initialised branch) feeding a consumer whose activation
+                # qtype differs; both are called directly (no parent container), calibrated, then run: the consumer must output its bias
+                from optimum.quanto import quantize_activation
+                prod_ = torch.nn.Sequential(torch.nn.Linear(c["in"], c["in"], bias=False)).to(dtype)
+                cons = torch.nn.Sequential(torch.nn.Linear(c["in"], c["out"])).to(dtype)
+                with torch.no_grad():
+                    prod_[0].weight.zero_()
+                    cons[0].bias.copy_(torch.randn(c["out"]).to(dtype))
+                quantize(prod_, weights=QT[c["weights"]], activations=QT[c["activations"]])
+                quantize(cons, weights=QT[c["weights"]], activations=QT[c["consumer_activations"]])
+                q1, q2 = prod_[0], cons[0]
+                x = torch.randn(3, c["in"]).to(dtype)
+                with torch.no_grad(), Calibration(streamline=c.get("streamline", True)):
+                    for _ in range(2):
+                        q2(q1(x))
+                with torch.no_grad():
+                    mid = q1(x)
+                    y = q2(mid)
+                yd = y.dequantize() if isinstance(y, Q.QTensor) else y
+                md = mid.dequantize() if isinstance(mid, Q.QTensor) else mid
+                bias = q2.bias.detach()
+                r = {"ok": True, "finite": bool(torch.isfinite(yd).all()) and bool(torch.isfinite(md).all()), "mid_cls": type(mid).__name__,
+                     "scales": [float(q1.output_scale), float(q2.input_scale), float(q2.output_scale)]}
+                if isinstance(y, Q.QTensor):
+                    want = quantize_activation(bias.expand(3, -1).contiguous(), y.qtype, q2.output_scale).dequantize()
+                    r["equals_bias"] = bool(torch.equal(yd, want))
+                else:
+                    r["equals_bias"] = bool(torch.equal(yd, bias.expand(3, -1)))
             else:
                 quantize(model, weights=QT[c["weights"]], activations=QT[c["activations"]])
                 with torch.no_grad(), Calibration():
